@@ -452,6 +452,8 @@ def check(run, prog, tier):
     import rules.C06g as c06g
     c06g.check(run, prog, cg)
 
+    node_release_rule(run, prog)
+
     # ---- C06-h an array that is taken apart is owned by nobody else
     run.rule("C06-h", "free_empty_array(X->F) releases the block of an array whose items were moved out (transfer_push_some_svalues) without touching the items: the array in record field F must have exactly one holder. No site in the driver hands out another reference to the array in that field (`X->F->ref++`, push_array/assign of X->F): the second holder would keep an array whose items are owned, and later released, by someone else", 1)
     nh = 0
@@ -495,3 +497,98 @@ def check(run, prog, tier):
                    "%s() takes the array in %s.%s apart (items moved to the stack, block released with free_empty_array at line %s) but %s gives it a second holder: that holder keeps items which the callee's frame owns and releases" % (f.name, key[0], key[1], n.get("l"), "; ".join(sharers[:3])),
                    f.file, n.get("l"), f.name, what="an array that is dismantled with free_empty_array() is shared: %s" % "; ".join(sharers[:2]))
     run.need(nh >= 1, "free_empty_array() of a record field (found %d)" % nh)
+
+
+def node_release_rule(run, prog):
+    """C06-i: a mapping node that is given back took its key and its value with it"""
+    run.rule("C06-i", "free_node(X) only recycles the node: at every call, key and value (X->values[0], X->values[1]) have been released on the way - free_svalue() on each (directly, or through a cursor set from X->values), free_object() on the key's object - and a release that is conditional on the value's own type tag tests a mask that covers strings and every counted type (T_STRING|T_REFED); a narrower test skips the release for the types it leaves out", 4)
+    T_STRING = 4
+    recs = prog.records()
+    ni = 0
+
+    def mentions_values(e, xid):
+        return any(y.get("k") == "Mem" and y.get("f") == "values" and strip(y.get("b") or {}).get("id") == xid for y in walk(e))
+
+    def slot_of(arg, xid):
+        """0/1 for X->values / X->values + 1 / &X->values[k]; None if not of that form"""
+        a = strip(arg)
+        if a.get("k") == "Un" and a.get("op") == "&":
+            s = strip(a["e"])
+            if s.get("k") == "Sub" and mentions_values(s.get("b") or {}, xid):
+                return const_val(s.get("i"))
+        if a.get("k") == "Bin" and a.get("op") == "+" and mentions_values(a["L"], xid):
+            return const_val(a["R"])
+        if a.get("k") == "Mem" and a.get("f") == "values" and strip(a.get("b") or {}).get("id") == xid:
+            return 0
+        return None
+    for f in sorted(prog.functions(), key=lambda x: (x.file, x.line)):
+        if f.name == "free_node":
+            continue
+        for j, (b, i, n) in enumerate(f.calls("free_node")):
+            x = strip(n["args"][0]) if n.get("args") else {}
+            if x.get("k") != "Ref" or x.get("id") is None:
+                continue
+            xid = x["id"]
+            ni += 1
+            run.saw(f)
+            # cursors: locals assigned from an expression over X->values
+            cursors = set()
+            for b2, i2, n2 in f.nodes():
+                if n2.get("k") == "Asg" and strip(n2["L"]).get("k") == "Ref" and strip(n2["L"]).get("d") == "local" and mentions_values(n2["R"], xid):
+                    cursors.add(strip(n2["L"]).get("id"))
+                if n2.get("k") == "Decl":
+                    for v in n2.get("vars", ()):
+                        if isinstance(v.get("init"), dict) and mentions_values(v["init"], xid):
+                            cursors.add(v.get("id"))
+            here = cfgq.guards(f, b.id)
+            here_keys = {(show(c), t) for c, t, B in here}
+            covered, loose, narrow = set(), 0, None
+            for b2, i2, n2 in f.calls():
+                fn = n2.get("fn")
+                if fn not in ("free_svalue", "free_object", "free_string_svalue") or not n2.get("args"):
+                    continue
+                a0 = n2["args"][0]
+                k = slot_of(a0, xid)
+                via_cursor = False
+                if k is None and fn == "free_object" and mentions_values(a0, xid):
+                    s = [y for y in walk(a0) if y.get("k") == "Sub" and mentions_values(y.get("b") or {}, xid)]
+                    k = const_val(s[0].get("i")) if s else None
+                if k is None:
+                    c0 = strip(a0)
+                    while c0.get("k") == "Un" and c0.get("op") in ("++", "--", "p++", "p--", "post++", "post--") and isinstance(c0.get("e"), dict):
+                        c0 = strip(c0["e"])
+                    if c0.get("k") == "Ref" and c0.get("id") in cursors:
+                        via_cursor = True
+                    else:
+                        continue
+                # on the way to the free_node() call?
+                if not (b2.id == b.id and i2 < i) and not (b2.id != b.id and f.dominates(b2.id, b.id)):
+                    # conditional release: which tests separate it from the call
+                    if b.id not in cfgq.reach_set(f, [b2.id]):
+                        continue
+                    extra = [(c, t) for c, t, B in cfgq.guards(f, b2.id) if (show(c), t) not in here_keys]
+                    okmask = False
+                    for c, t in extra:
+                        for y in walk(c):
+                            if y.get("k") == "Bin" and y.get("op") == "&" and any(z.get("k") == "Mem" and z.get("f") == "type" for z in walk(y["L"])) and mentions_values(y["L"], xid):
+                                m = const_val(y["R"])
+                                if m is not None and t and (m & T_STRING) and (m & 0x8 or m & 0x10 or m & 0x20):
+                                    okmask = True
+                                elif m is not None and t:
+                                    narrow = (n2.get("l"), show(c)[:60], m)
+                    if not okmask:
+                        continue
+                if via_cursor:
+                    loose += 1
+                elif k in (0, 1):
+                    covered.add(k)
+            missing = [k for k in (0, 1) if k not in covered]
+            ok = len(missing) <= loose
+            why = "key and value of the node are released before free_node() at line %s" % n.get("l")
+            if not ok:
+                what_ = "value" if missing == [1] else "key" if missing == [0] else "key and value"
+                why = "free_node(%s) at line %s: the %s of the node is not released on every path to it" % (x.get("n"), n.get("l"), what_)
+                if narrow:
+                    why += "; the release at line %s happens only under `%s`, a mask (0x%x) without T_STRING: a string stored there keeps its reference for ever" % narrow
+            run.ob("C06-i", "node:%s:%d" % (f.name, j), ok, why, f.file, n.get("l"), f.name, what="%s gives a mapping node back without releasing its %s" % (f.name, "contents"))
+    run.need(ni >= 4, "free_node() call sites (found %d)" % ni)
